@@ -120,3 +120,19 @@ def optimizer_setup(t, this, task):
     ws = t.make_obj(TD('obj', cls='SplineOptimizer::Workspace', cfg=task.cfg), 'ws__')
     this.fields['internal_ws_'].target = ws
     return this
+
+
+def optimizer_abstract_maps(t, this, task):
+    """optimizer whose active spatial map is a user map known only through its protocol"""
+    this = optimizer_setup(t, this, task)
+    from optimizer import AbstractSpatialMap
+    this.fields['active_spatial_map_'].target = AbstractSpatialMap()
+    this.fields['active_time_map_'].target = this.fields['default_time_map_']
+    return this
+
+
+def optimizer_default_maps(t, this, task):
+    this = optimizer_setup(t, this, task)
+    this.fields['active_spatial_map_'].target = this.fields['default_spatial_map_']
+    this.fields['active_time_map_'].target = this.fields['default_time_map_']
+    return this
